@@ -792,7 +792,7 @@ static void longhaul_case(uint64_t idx)
 	snprintf(desc, sizeof(desc), "longhaul %s mf=0x%x mode=%d dict=%u nice=%u depth=%u lc%u lp%u pb%u total=%" PRIu64,
 			container == 0 ? "xz" : (container == 1 ? "lzma" : "raw-delta-lzma2"), (unsigned)o.mf, (int)o.mode, o.dict_size, o.nice_len, o.depth, o.lc, o.lp, o.pb, total);
 	hx_sample("%s", desc);
-	alarm(7200);   // this case alone may run for many minutes
+	alarm(14400);   // this case alone may run for many minutes (inconclusive, not a verdict, if it fires)
 	lzma_stream e = LZMA_STREAM_INIT, d = LZMA_STREAM_INIT;
 	lzma_ret er = container == 0 ? lzma_stream_encoder(&e, f, LZMA_CHECK_CRC32) : (container == 1 ? lzma_alone_encoder(&e, &o) : lzma_raw_encoder(&e, f));
 	lzma_ret dr = container == 0 ? lzma_stream_decoder(&d, UINT64_MAX, 0) : (container == 1 ? lzma_alone_decoder(&d, UINT64_MAX) : lzma_raw_decoder(&d, f));
